@@ -123,21 +123,28 @@ Record(o) == /\ Len(hist) < MaxHist
              /\ hist' = Append(hist, o)
 
 Mutate(o, ref) ==
+    LET c == Posts(xs, ex, o)[1] IN        \* the reference is the literal transcription: first admissible post-state
     /\ InDomain(xs, ex, o)
-    /\ ex' = ex
-    /\ Len(Post(xs, o)) <= MaxLen
+    /\ Len(c.xs) <= MaxLen
+    /\ Cardinality(c.ex) <= MaxEx
     /\ m' = ref.m
-    /\ xs' = Post(xs, o)
+    /\ xs' = c.xs
+    /\ ex' = c.ex
     /\ res' = (ref.res \in Results(xs, o))
     /\ Record(o)
 
+(* positions explored: beyond both ends of the list; below 0 only where the key universe has -1 *)
+MinPos == IF <<"n", 0 - 1>> \in AllKeys THEN 0 - 1 ELSE 0
+InsPos == IF MaxEx > 0 THEN MinPos..(MaxLen + 2) ELSE 1..(MaxLen + 1)
+RemPos == IF MaxEx > 0 THEN MinPos..(MaxLen + 2) ELSE 1..MaxLen
+
 InsEnd == \E v \in NewVals, e \in Borders(m) :
     Mutate([op |-> "ins_end", v |-> v], [m |-> RefInsertEnd(m, e, v), res |-> <<>>])
-Ins == \E v \in NewVals, pos \in 1..(MaxLen + 1), e \in Borders(m) :
+Ins == \E v \in NewVals, pos \in {q \in InsPos : q <= Len(xs) + (IF MaxEx > 0 THEN 2 ELSE 1)}, e \in Borders(m) :
     Mutate([op |-> "ins", pos |-> pos, v |-> v], [m |-> RefInsert(m, e, pos, v), res |-> <<>>])
 RemEnd == \E e \in Borders(m) :
     Mutate([op |-> "rem_end"], RefRemove(m, e, e))
-Rem == \E pos \in 1..MaxLen, e \in Borders(m) :
+Rem == \E pos \in {q \in RemPos : q <= Len(xs) + (IF MaxEx > 0 THEN 1 ELSE 0)}, e \in Borders(m) :
     Mutate([op |-> "rem", pos |-> pos], RefRemove(m, e, pos))
 Set == \E v \in NewVals, i \in 1..(MaxLen + 1) :
     Mutate([op |-> "set", i |-> i, v |-> v], [m |-> Seti(m, i, v), res |-> <<>>])
@@ -157,21 +164,26 @@ SetX == \E k \in AllKeys, v \in XVals \cup {Nil} :
     LET o == [op |-> "setx", k |-> k, v |-> v] IN
     /\ MaxEx > 0
     /\ InDomain(xs, ex, o)
-    /\ Cardinality(PostEx(ex, o)) <= MaxEx
+    /\ Cardinality(PostEx(xs, ex, o)) <= MaxEx
     /\ m' = T!Store(m, k, v)
-    /\ ex' = PostEx(ex, o)
+    /\ ex' = PostEx(xs, ex, o)
     /\ xs' = xs
     /\ res' = TRUE
     /\ Record(o)
 
-Next == InsEnd \/ Ins \/ RemEnd \/ Rem \/ Set \/ Sort \/ Fill \/ SetX
+(* table.insert(t, pos, v, extra): tinsert raises "wrong number of arguments to 'insert'" *)
+InsX == \E v \in NewVals \ {Nil}, pos \in 1..2 :
+    /\ MaxEx > 0
+    /\ Mutate([op |-> "insx", pos |-> pos, v |-> v], [m |-> m, res |-> <<>>])
+
+Next == InsEnd \/ Ins \/ RemEnd \/ Rem \/ Set \/ Sort \/ Fill \/ SetX \/ InsX
 
 (* random export (TLC -simulate): the kind of call is drawn first so that the *)
 (* mix of calls does not depend on how many argument combinations a kind has  *)
 SimNext ==      \* each RandomElement is a fresh draw: 1/6, 1/6, 1/6, 1/6, 1/4, 1/12
     CASE HoleKeys(ex) # {} -> SetX        \* list calls are outside the domain until the key beyond the hole is cleared
       [] RandomElement(1..6) = 1 -> InsEnd
-      [] RandomElement(1..5) = 1 -> Ins
+      [] RandomElement(1..5) = 1 -> (IF RandomElement(1..8) = 1 THEN InsX ELSE Ins)
       [] RandomElement(1..4) = 1 -> (IF xs = <<>> THEN InsEnd ELSE RemEnd)
       [] RandomElement(1..3) = 1 -> (IF xs = <<>> THEN Ins ELSE Rem)
       [] RandomElement(1..4) # 1 -> (IF RandomElement(1..4) = 1 THEN SetX ELSE Set)
